@@ -43,14 +43,6 @@ Definition src_allows (v mode : N) (prog : list N) (pc : nat) : bool :=
   | Some s => negb (N.eqb (N.land mode (os_modes s)) 0) && field_gate v mode s prog pc
   end.
 
-Definition src_sig_allowed (v : N) (prog : list N) (pc : nat) : bool :=
-  let opcode := byte_at prog pc in
-  let sub := if is_prefix_src opcode then byte_at prog (S pc) else 0%N in
-  match src_lookup v opcode sub with
-  | None => false
-  | Some s => negb (N.eqb (N.land mode_sig (os_modes s)) 0)
-  end.
-
 (* ------------------------------------------------------------------ parsing *)
 Definition parse_sval (t : term) : option sval :=
   match t with
@@ -87,7 +79,7 @@ Definition check_x (v mode lsv : N) (prog : list N) (tpc : nat) (ckbudget : Z) (
   let reached := match tstack with Some _ => N.eqb tcls 0 | None => false end in
   (* the property, on the implementation's observation *)
   let spec_ok := implb reached allowed
-                 && implb (touched && reached) (negb (src_sig_allowed v prog tpc)) in
+                 && implb (touched && reached) (negb (src_allows v mode_sig prog tpc)) in
   let mpre := match tstack with Some stk => pre_class v mode prog tpc stk rem | None => 0%N end in
   let corr_eval :=
       match tstack with
@@ -95,7 +87,9 @@ Definition check_x (v mode lsv : N) (prog : list N) (tpc : nat) (ckbudget : Z) (
       | Some _ => if N.eqb mpre 0 then entered_class tcls else N.eqb mpre tcls
       end in
   let name := os_name (get_op_spec gen_tbl v prog tpc) in
-  let corr_touch := implb touched (touches_ledger name) in
+  (* every instruction that called into the ledger is classified as ledger-touching by the doc
+     groups, or is guarded at field level (global Round, ...) *)
+  let corr_touch := implb touched (touches_ledger name || negb (src_allows v mode_sig prog tpc)) in
   let corr := N.eqb mchk chk && corr_eval && corr_touch in
   verdict spec_ok corr (reached || negb allowed)
           (TL [tn mchk; tn mpre; tb allowed; TS (if touches_ledger name then "ledger" else "pure")]).
